@@ -269,6 +269,17 @@ func (tt *TermTable) Bin(op Op, a, b *Term) *Term {
 		if op == OpOr && k == mask(w) {
 			return b
 		}
+		// unsigned division / remainder by a power of two: shift / mask (bit-blasted dividers are slow)
+		if (op == OpUDiv || op == OpURem) && k > 1 && k&(k-1) == 0 {
+			if op == OpURem {
+				return tt.Bin(OpAnd, a, tt.Const(k-1, w))
+			}
+			s := uint64(0)
+			for k>>s != 1 {
+				s++
+			}
+			return tt.Bin(OpLShr, a, tt.Const(s, w))
+		}
 		if (op == OpShl || op == OpLShr) && k >= uint64(w) {
 			return tt.Const(0, w)
 		}
